@@ -473,6 +473,16 @@ func (w *WAF) Validate() error {
 		}
 	}
 
+	if multiphaseEvaluation {
+		// The chains are complete by now: derive their minimum phase once, here, so that
+		// the transactions sharing this WAF only read it instead of each computing it
+		// during their first evaluation of the rule.
+		rules := w.Rules.GetRules()
+		for i := range rules {
+			computeRuleChainMinPhase(&rules[i])
+		}
+	}
+
 	return nil
 }
 
